@@ -500,6 +500,8 @@ def _python_type_names(av):
     if av.kind == K_SCALAR:
         if av.origin == frozenset(["lit"]) and av.has_const():
             return {"int"} if av.dtype == "int" else {"float"}
+        if av.note == "pyscalar" and av.dtype in ("real", "int"):      # a plain Python number handed in by the caller (role tables / scenarios)
+            return {"float"} if av.dtype == "real" else {"int"}
         return None
     return None
 
